@@ -1012,9 +1012,11 @@ class IMAPUserServer:
                     "Done waiting for mailbox '%s', took: %.3fs", name, duration
                 )
 
-            # Once the wait completes we are guaranteed that
-            # `self.active_mailboxes` has the key `name` in it.
+            # Once the wait completes `self.active_mailboxes` has the key
+            # `name` in it, unless the activation failed.
             #
+            if name not in self.active_mailboxes:
+                raise NoSuchMailbox(f"Unable to activate mailbox '{name}'")
             if self.active_mailboxes[name].deleted:
                 raise NoSuchMailbox(f"'{name}' has been deleted.")
             return self.active_mailboxes[name]
@@ -1023,16 +1025,21 @@ class IMAPUserServer:
         # Instantiate the mailbox. Add it to `active_mailboxes`, signal any
         # other task waiting on the event that it can now get the mailbox.
         #
-        mbox = await Mailbox.new(
-            name,
-            self,
-        )
-        async with self.active_mailboxes_lock:
-            self.active_mailboxes[name] = mbox
-
-        async with self.activating_mailboxes_lock:
-            event.set()
-            del self.activating_mailboxes[name]
+        # NOTE: No matter how the activation ends the event must be set and
+        #       removed, otherwise every later request for this mailbox waits
+        #       forever on it.
+        #
+        try:
+            mbox = await Mailbox.new(
+                name,
+                self,
+            )
+            async with self.active_mailboxes_lock:
+                self.active_mailboxes[name] = mbox
+        finally:
+            async with self.activating_mailboxes_lock:
+                event.set()
+                del self.activating_mailboxes[name]
         duration = time.monotonic() - inst_start
         if duration > 3:
             logger.debug(
